@@ -200,5 +200,63 @@ if not (st == "ok" and got is None):
     elif got != want:
         rep.fail("member_of::both-ids-reused-before-sweep", f"person.member_of.append(company) with both objects at addresses of dead, related, unswept instances: {got}; on a fresh graph: {want}",
                  {"scenario": "dense-dead-pair"})
+# ---- a sweep happens while a LIVE, related instance is falsy (its class has __len__): nothing of it may be swept
+from dataclasses import dataclass, field
+from typing_extensions import List
+from krrood.entity_query_language.predicate import Symbol
+from krrood.ontomatic.property_descriptor.mixins import TransitiveProperty
+from krrood.ontomatic.property_descriptor.property_descriptor import PropertyDescriptor
+
+
+@dataclass
+class Department(Symbol):
+    name: str
+    staff: int = 0
+    part_of: List["Department"] = field(default_factory=list)
+
+    def __len__(self):
+        return self.staff
+
+    def __hash__(self):
+        return hash(self.name)
+
+
+@dataclass
+class DepartmentPartOf(PropertyDescriptor, TransitiveProperty):
+    ...
+
+
+Department.part_of = DepartmentPartOf(Department, "part_of")
+
+
+def falsy_live_scenario(sweep, dead):
+    fresh_graph()
+    def make_garbage():
+        garbage = [Department(name=f"g{i}", staff=1) for i in range(dead)]
+        for i in range(len(garbage) - 1):
+            garbage[i].part_of.append(garbage[i + 1])
+    make_garbage()
+    lab, institute, faculty = Department("lab"), Department("institute"), Department("faculty", staff=3)
+    lab.part_of.append(institute)                 # both end points are empty departments (falsy) right now
+    gc.collect()
+    if sweep:
+        SymbolGraph().remove_dead_instances()
+    institute.part_of.append(faculty)
+    ds = {"lab": lab, "institute": institute, "faculty": faculty}
+    rels = sorted((r.source.instance.name, r.target.instance.name) for r in SymbolGraph().relations()
+                  if r.source.instance is not None and r.target.instance is not None and any(r.source.instance is d for d in ds.values()))
+    return {"fields": {n: sorted(x.name for x in d.part_of) for n, d in ds.items()}, "relations": rels,
+            "nodes": len([w for w in SymbolGraph().wrapped_instances if w.instance is not None])}
+
+
+for dead in (0, 2):
+    st0, want = guarded(lambda: falsy_live_scenario(False, 0))
+    st, got = guarded(lambda: falsy_live_scenario(True, dead))
+    rep.case(("falsy-live", dead), sample={"scenario": "sweep while live related instances are falsy", "dead": dead})
+    if st == "exc":
+        rep.fail("part_of::sweep-while-falsy::raised", f"{type(got).__name__}: {got}", {"scenario": "falsy-live", "dead": dead})
+    elif st0 == "ok" and got != want:
+        rep.fail("part_of::sweep-while-falsy", f"lab part_of institute, sweep (both are empty departments: falsy), institute part_of faculty: {got}; without the sweep: {want}",
+                 {"scenario": "falsy-live", "dead": dead})
 fresh_graph()
 rep.finish(exhaustive=True)
